@@ -34,6 +34,21 @@ use sozu_lib::server::Server;
 use verif_harness::rig::{quiet_logs_silently, silence_worker_panics};
 use verif_harness::*;
 
+/// A liveness verdict (stalled / wedged) is only given after a generous, polled
+/// deadline *and* a confirming second probe, so a worker thread starved by a
+/// loaded machine is not mistaken for a wedged one. Once such a failure has been
+/// confirmed in this process, the re-runs of the shrinker use the short window
+/// (they only have to reproduce what was already established).
+static CONFIRMED: std::sync::atomic::AtomicBool = std::sync::atomic::AtomicBool::new(false);
+
+fn silence_window() -> Duration {
+    if CONFIRMED.load(std::sync::atomic::Ordering::Relaxed) {
+        Duration::from_millis(1500)
+    } else {
+        Duration::from_secs(6)
+    }
+}
+
 struct W {
     sock: UnixStream,
     thread: Option<std::thread::JoinHandle<()>>,
@@ -84,7 +99,7 @@ impl W {
         let cmd_worker: Channel<WorkerResponse, WorkerRequest> = Channel::new(ws, buf, max);
         let sock = unsafe { UnixStream::from_raw_fd(hs.into_raw_fd()) };
         sock.set_nonblocking(false).map_err(|e| e.to_string())?;
-        sock.set_write_timeout(Some(Duration::from_secs(3))).map_err(|e| e.to_string())?;
+        sock.set_write_timeout(Some(Duration::from_secs(10))).map_err(|e| e.to_string())?;
         let (scm_a, scm_b) = UnixStream::pair().map_err(|e| e.to_string())?;
         let (fa, fb) = (scm_a.into_raw_fd(), scm_b.into_raw_fd());
         let scm_main = ScmSocket::new(fa).map_err(|e| format!("scm: {e}"))?;
@@ -149,7 +164,8 @@ impl W {
 
     /// next complete frame of the raw stream, waiting until `deadline`
     fn next_frame(&mut self, deadline: Instant, oracle: &mut Vec<(String, String)>) -> Option<WorkerResponse> {
-        // a healthy worker answers within milliseconds: give up after 800 ms without a byte
+        // a healthy worker answers within milliseconds: give up after a silence window without a byte
+        let silence = silence_window();
         let mut last_byte = Instant::now();
         loop {
             if self.rx.len() >= 8 {
@@ -172,7 +188,7 @@ impl W {
                 self.partial_frames = true;
             }
             let left = deadline.saturating_duration_since(Instant::now());
-            if left.is_zero() || last_byte.elapsed() > Duration::from_millis(1000) {
+            if left.is_zero() || last_byte.elapsed() > silence {
                 return None;
             }
             let _ = self.sock.set_read_timeout(Some(left.min(Duration::from_millis(100)).max(Duration::from_millis(1))));
@@ -224,23 +240,31 @@ impl W {
         seq.to_string()
     }
 
-    fn read_finals(&mut self, k: usize, wait: Duration, oracle: &mut Vec<(String, String)>) -> Vec<String> {
+    fn read_finals(&mut self, k: usize, oracle: &mut Vec<(String, String)>) -> Vec<String> {
         let target = k.min(self.outstanding.len());
-        let deadline = Instant::now() + wait;
         let mut got = vec![];
-        while got.len() < target {
-            match self.next_frame(deadline, oracle) {
-                Some(m) if m.status == ResponseStatus::Processing as i32 => continue,
-                Some(m) => got.push(self.account(&m, oracle)),
-                None => break,
+        // two silence windows: the second one is the confirmation
+        for _attempt in 0..2 {
+            let deadline = Instant::now() + Duration::from_secs(60);
+            while got.len() < target {
+                match self.next_frame(deadline, oracle) {
+                    Some(m) if m.status == ResponseStatus::Processing as i32 => continue,
+                    Some(m) => got.push(self.account(&m, oracle)),
+                    None => break,
+                }
+            }
+            if got.len() >= target || self.dead().is_some() {
+                break;
             }
         }
         if got.len() < target && self.dead().is_none() {
             // answers must arrive without further prodding (the Status probe of `wstop` would
             // wake a worker that left requests or answers sitting in a buffer)
+            let w = silence_window();
+            CONFIRMED.store(true, std::sync::atomic::Ordering::Relaxed);
             oracle.push((
                 "worker-response-stalled".into(),
-                format!("{} answer(s) outstanding but only {} arrived before the worker went silent for 1 s", target, got.len()),
+                format!("{} answer(s) outstanding but only {} arrived; the worker then stayed silent for two windows of {:?}", target, got.len(), w),
             ));
         }
         got
@@ -253,23 +277,31 @@ impl W {
             oracle.push(("worker-dead".into(), format!("worker thread ended: {state:?}")));
             verdict = "dead";
         } else {
-            let probe = WorkerRequest { id: "PROBE-status".into(), content: Request { request_type: Some(RequestType::Status(Status {})) } };
-            let sent = self.send(&probe);
-            let deadline = Instant::now() + Duration::from_secs(2);
             let mut answered = false;
-            while sent {
-                match self.next_frame(deadline, oracle) {
-                    Some(m) if m.id == "PROBE-status" => {
-                        if m.status != ResponseStatus::Processing as i32 {
-                            answered = true;
-                            break;
+            // two probes, each with its own polled silence window
+            for attempt in 0..2 {
+                let probe = WorkerRequest { id: format!("PROBE-status-{attempt}"), content: Request { request_type: Some(RequestType::Status(Status {})) } };
+                if !self.send(&probe) {
+                    continue;
+                }
+                let deadline = Instant::now() + Duration::from_secs(60);
+                loop {
+                    match self.next_frame(deadline, oracle) {
+                        Some(m) if m.id.starts_with("PROBE-status-") => {
+                            if m.status != ResponseStatus::Processing as i32 {
+                                answered = true;
+                                break;
+                            }
                         }
+                        Some(m) => {
+                            // anything else now is an answer the reads should have seen
+                            let _ = self.account(&m, oracle);
+                        }
+                        None => break,
                     }
-                    Some(m) => {
-                        // anything else now is an answer the reads should have seen
-                        let _ = self.account(&m, oracle);
-                    }
-                    None => break,
+                }
+                if answered || self.dead().is_some() {
+                    break;
                 }
             }
             if !answered {
@@ -277,8 +309,10 @@ impl W {
                 // send_queue retries it for ever
                 let over = !self.unanswerable.is_empty();
                 let class = if over { "worker-wedged-response-over-ceiling" } else { "worker-wedged" };
+                let w = silence_window();
+                CONFIRMED.store(true, std::sync::atomic::Ordering::Relaxed);
                 oracle.push((class.into(), format!(
-                    "the worker does not answer a Status request within 1 s ({} request(s) unanswered, oldest id {} B, ceiling {})",
+                    "the worker answered neither of two Status probes, each awaited for {w:?} ({} request(s) unanswered, oldest id {} B, ceiling {})",
                     self.outstanding.len(), self.outstanding.front().and_then(|s| self.idlen.get(s)).copied().unwrap_or(0), self.max)));
                 verdict = "wedged";
             }
@@ -292,7 +326,7 @@ impl W {
         let stop = WorkerRequest { id: "PROBE-stop".into(), content: Request { request_type: Some(RequestType::HardStop(HardStop {})) } };
         let _ = self.send(&stop);
         let t0 = Instant::now();
-        let patience = if verdict == "alive" { Duration::from_secs(2) } else { Duration::from_millis(100) };
+        let patience = if verdict == "alive" { Duration::from_secs(6) } else { Duration::from_millis(100) };
         while self.dead().is_none() && t0.elapsed() < patience {
             std::thread::sleep(Duration::from_millis(1));
         }
@@ -448,7 +482,7 @@ impl Area for ChanWorker {
                             run.tags.push("request-with-unanswerable-id".into());
                         }
                         if !g.send(&req) {
-                            run.oracle.push(("worker-not-reading".into(), format!("request {seq} could not be written within 1 s")));
+                            run.oracle.push(("worker-not-reading".into(), format!("request {seq} could not be written within 10 s")));
                         }
                         "sent".into()
                     }
@@ -456,7 +490,7 @@ impl Area for ChanWorker {
                 },
                 ("wread", Some(g)) if ws.len() == 2 => match ws[1].parse::<usize>() {
                     Ok(k) => {
-                        let got = g.read_finals(k, Duration::from_secs(4), &mut run.oracle);
+                        let got = g.read_finals(k, &mut run.oracle);
                         answers += got.len();
                         format!("got {}", if got.is_empty() { "-".into() } else { got.join(",") })
                     }
